@@ -749,3 +749,252 @@ Example C09s_hypotheses_needed :
   wf_doc [DFor [120] [110; 111; 116] false false [] None] = false /\
   c09s_compile [DFor [120] [110; 111; 116] false false [] None] = Err 2.
 Proof. exact tie_c09s_needed. Qed.
+
+
+(* ==================== part: Execute methods translated from the Go sources (Props/C09w) ==================== *)
+
+(* Property C09 (translated) - the branching tags' Execute methods ARE the model's executor.
+
+   Props/C09.v states what if / firstof / ifequal / ifnotequal do, about the hand-written executor
+   model (Model/Exec.v, exec_node on NIf, NFirstof, NIfequal).  This file ties that part of the model
+   to the Go source by TRANSLATION: tools/go2v translates, statement by statement and on every run,
+       tagIfNode.Execute (tags_if.go), tagFirstofNode.Execute (tags_firstof.go),
+       tagIfEqualNode.Execute (tags_ifequal.go), tagIfNotEqualNode.Execute (tags_ifnotequal.go)
+   into terms of the small Go fragment of Lib/GoStmt.v (gen/TagFuncs.v: go_tagfuncs).
+   Spec/SpecTagFuncs.v gives those terms a meaning ([tag_execute]: the run of node.Execute(ctx, writer)
+   in a world that holds what the writer was handed so far, the model's execution state and the
+   model's fuel), in which only what the methods CALL is taken from the model: expression
+   evaluation, truthiness, value equality, String, FilterApplied, ApplyFilter, ctx.Autoescape,
+   NodeWrapper.Execute, writer.WriteString.  The loops, the index arithmetic, the early returns, the
+   order of the tests and the error handling are those of the Go text.
+   [read_exec site r] reads a run back as an outcome of the model's executor (output, state or
+   failure); a run-time panic of the translated code itself (index out of range) is read as the
+   model's Panic [site].  [after o0 x] is the model's outcome x after the writer already held o0.
+   [d] bounds the call depth of the interpretation (2 is enough).
+
+   What each theorem contributes:
+     C09w_if_is_model            tagIfNode.Execute = exec_node on NIf: for EVERY list of conditions and of
+                                 wrappers (any lengths, also shapes the parser never builds), every
+                                 state, every fuel, every output before; the panic of
+                                 node.wrappers[i] is the model's Panic 97 (its Panic 98, for
+                                 node.wrappers[i+1], is thereby shown to be impossible)
+     C09w_if_parser_shape_safe   with as many wrappers as conditions, or one more (the shapes of
+                                 tagIfParser), the Go code never panics on an index
+     C09w_parsed_if_has_parser_shape / C09w_parsed_if_never_panics
+                                 every if tag of a document in the syntax of Spec/SpecSyntax.v (any
+                                 number of elif blocks, else or not) becomes - by node_of, which is
+                                 what the model's parser builds (Props/C09.v, C09_syntax_roundtrip) -
+                                 a node of that shape; so its Execute never panics
+     C09w_if_panic_only_when_a_wrapper_is_missing
+                                 if it does panic, there are fewer wrappers than conditions, and the
+                                 model's outcome is Panic 97
+     C09w_firstof_is_model       tagFirstofNode.Execute = exec_node on NFirstof, any argument list
+     C09w_ifequal_is_model       tagIfEqualNode.Execute = exec_node on NIfequal false ...
+     C09w_ifnotequal_is_model    tagIfNotEqualNode.Execute = exec_node on NIfequal true ...
+                                 (no index in these three: [site] is arbitrary)
+     C09w_tag_execute_is_exec_node
+                                 the four in one statement: for a node n of the model that is one of
+                                 these tags ([tag_value n = Some v]), v.Execute is exec_node on n
+   Examples: compiled if tags have the parser's shape; the translated code run on a compiled tag
+   (output, out of fuel, equal to the model); a missing wrapper does make the Go code panic; firstof
+   escapes, ifequal / ifnotequal choose opposite blocks.
+
+   No difference between the model and the Go code was found for these four methods: the ties hold
+   without any excluding hypothesis (none is named _partial). *)
+From PV Require Import Model.Exec Model.Api Lib.GoStmt Spec.SpecSyntax Spec.SpecTagFuncs gen.TagFuncs.
+From PV Require Import Tie.C09s Tie.C09w.
+From Coq Require Import String.
+Open Scope string_scope.
+
+Theorem C09w_if_is_model : forall d, (2 <= d)%nat -> forall se globals conds ws o0 st fuel,
+  read_exec 97 (tag_execute se globals go_tagfuncs d (TVIfNode conds ws) o0 st fuel)
+  = Some (after o0 (exec_node se globals fuel st (NIf conds ws))).
+Proof. exact tie_tagIfNode_Execute. Qed.
+Print Assumptions C09w_if_is_model.
+
+Theorem C09w_if_parser_shape_safe : forall d, (2 <= d)%nat -> forall se globals conds ws o0 st fuel,
+  parser_shape conds ws ->
+  go_panics (tag_execute se globals go_tagfuncs d (TVIfNode conds ws) o0 st fuel) = false.
+Proof. exact tie_tagIfNode_Execute_parser_shape. Qed.
+Print Assumptions C09w_if_parser_shape_safe.
+
+Theorem C09w_parsed_if_has_parser_shape : forall owner aft bef c body elifs els,
+  exists conds ws, node_of owner aft bef (DIf c body elifs els) = NIf conds ws /\ parser_shape conds ws.
+Proof. exact tie_node_of_if_parser_shape. Qed.
+Print Assumptions C09w_parsed_if_has_parser_shape.
+
+Theorem C09w_parsed_if_never_panics : forall d, (2 <= d)%nat ->
+  forall se globals owner aft bef c body elifs els v o0 st fuel,
+  tag_value (node_of owner aft bef (DIf c body elifs els)) = Some v ->
+  go_panics (tag_execute se globals go_tagfuncs d v o0 st fuel) = false.
+Proof. exact tie_parsed_if_never_panics. Qed.
+Print Assumptions C09w_parsed_if_never_panics.
+
+Theorem C09w_if_panic_only_when_a_wrapper_is_missing : forall d, (2 <= d)%nat ->
+  forall se globals conds ws o0 st fuel,
+  go_panics (tag_execute se globals go_tagfuncs d (TVIfNode conds ws) o0 st fuel) = true ->
+  (List.length ws < List.length conds)%nat /\ snd (exec_node se globals fuel st (NIf conds ws)) = Panic 97.
+Proof. exact tie_tagIfNode_Execute_panic. Qed.
+Print Assumptions C09w_if_panic_only_when_a_wrapper_is_missing.
+
+Theorem C09w_firstof_is_model : forall site d, (2 <= d)%nat -> forall se globals args o0 st fuel,
+  read_exec site (tag_execute se globals go_tagfuncs d (TVFirstofNode args) o0 st fuel)
+  = Some (after o0 (exec_node se globals fuel st (NFirstof args))).
+Proof. exact tie_tagFirstofNode_Execute. Qed.
+Print Assumptions C09w_firstof_is_model.
+
+Theorem C09w_ifequal_is_model : forall site d, (2 <= d)%nat -> forall se globals a b thenb elseb o0 st fuel,
+  read_exec site (tag_execute se globals go_tagfuncs d (TVIfEqualNode a b thenb elseb) o0 st fuel)
+  = Some (after o0 (exec_node se globals fuel st (NIfequal false a b thenb elseb))).
+Proof. exact tie_tagIfEqualNode_Execute. Qed.
+Print Assumptions C09w_ifequal_is_model.
+
+Theorem C09w_ifnotequal_is_model : forall site d, (2 <= d)%nat -> forall se globals a b thenb elseb o0 st fuel,
+  read_exec site (tag_execute se globals go_tagfuncs d (TVIfNotEqualNode a b thenb elseb) o0 st fuel)
+  = Some (after o0 (exec_node se globals fuel st (NIfequal true a b thenb elseb))).
+Proof. exact tie_tagIfNotEqualNode_Execute. Qed.
+Print Assumptions C09w_ifnotequal_is_model.
+
+Theorem C09w_tag_execute_is_exec_node : forall d, (2 <= d)%nat -> forall se globals n v o0 st fuel,
+  tag_value n = Some v ->
+  read_exec 97 (tag_execute se globals go_tagfuncs d v o0 st fuel)
+  = Some (after o0 (exec_node se globals fuel st n)).
+Proof. exact tie_tag_Execute_is_exec_node. Qed.
+Print Assumptions C09w_tag_execute_is_exec_node.
+
+(* ---------- non-vacuity ---------- *)
+(* {% if x %}A{% elif not y %}B{% elif y %}{{ x }}C{% else %}D{% endif %}  and  {% if x %}A{% endif %},
+   compiled by the model's parser, have the parser's shape: 3 conditions / 4 wrappers, 1 / 1 *)
+Example C09w_compiled_if_has_parser_shape :
+  option_map if_node_parser_shape (c09w_if_node c09s_if) = Some true /\
+  option_map if_node_parser_shape (c09w_if_node c09w_if_plain) = Some true /\
+  option_map (fun n => match n with NIf c w => (List.length c, List.length w) | _ => (0, 0)%nat end)
+             (c09w_if_node c09s_if) = Some (3, 4)%nat /\
+  option_map (fun n => match n with NIf c w => (List.length c, List.length w) | _ => (0, 0)%nat end)
+             (c09w_if_node c09w_if_plain) = Some (1, 1)%nat.
+Proof. exact tie_c09w_shape_witness. Qed.
+
+(* the translated Execute, run on the first of them with x = 0, y = "a" after "<<" was written:
+   "<<0C" with fuel 20; out of fuel with 3; and the model's outcome *)
+Example C09w_run_compiled_if :
+  option_map (option_map fst) (c09w_run (c09w_if_node c09s_if) [60; 60] c09s_state 20) = Some (Some [60; 60; 48; 67]) /\
+  option_map (option_map fst) (c09w_run (c09w_if_node c09s_if) [60; 60] c09s_state 3) = Some (Some [60; 60]) /\
+  option_map (option_map snd) (c09w_run (c09w_if_node c09s_if) [60; 60] c09s_state 3) = Some (Some Fuel) /\
+  c09w_run (c09w_if_node c09s_if) [60; 60] c09s_state 20 =
+    option_map (fun n => Some (after [60; 60] (exec_node (world_senv c09s_world) [] 20 c09s_state n))) (c09w_if_node c09s_if).
+Proof. exact tie_c09w_run_witness. Qed.
+
+(* a true condition without its wrapper: the Go code panics, the model says Panic 97; a false one does not *)
+Example C09w_missing_wrapper_panics :
+  go_panics (tag_execute (world_senv c09s_world) [] go_tagfuncs 2 (TVIfNode [EBool true] []) [] c09s_state 20) = true /\
+  exec_node (world_senv c09s_world) [] 20 c09s_state (NIf [EBool true] []) = ([], Panic 97) /\
+  go_panics (tag_execute (world_senv c09s_world) [] go_tagfuncs 2
+                         (TVIfNode [EBool false; EBool true] [[NHtml 1 [65] false false false false]]) [] c09s_state 20) = true /\
+  go_panics (tag_execute (world_senv c09s_world) [] go_tagfuncs 2 (TVIfNode [EBool false] []) [] c09s_state 20) = false.
+Proof. exact tie_c09w_panic_witness. Qed.
+
+(* {% firstof z "<b>" %} (z unset, autoescape on) prints &lt;b&gt;; ifequal 1 1 takes the then block A,
+   ifnotequal 1 1 the else block B *)
+Example C09w_run_firstof_ifequal :
+  option_map fst (read_exec 0 (tag_execute (world_senv c09s_world) [] go_tagfuncs 2
+     (TVFirstofNode [EVar [PIdent [122] None]; EStr [60; 98; 62]]) [] c09s_state 20)) = Some [38; 108; 116; 59; 98; 38; 103; 116; 59] /\
+  option_map fst (read_exec 0 (tag_execute (world_senv c09s_world) [] go_tagfuncs 2
+     (TVIfEqualNode (EInt 1) (EInt 1) [NHtml 1 [65] false false false false] (Some [NHtml 1 [66] false false false false]))
+     [] c09s_state 20)) = Some [65] /\
+  option_map fst (read_exec 0 (tag_execute (world_senv c09s_world) [] go_tagfuncs 2
+     (TVIfNotEqualNode (EInt 1) (EInt 1) [NHtml 1 [65] false false false false] (Some [NHtml 1 [66] false false false false]))
+     [] c09s_state 20)) = Some [66].
+Proof. exact tie_c09w_other_witness. Qed.
+Print Assumptions C09w_compiled_if_has_parser_shape.
+Print Assumptions C09w_run_compiled_if.
+Print Assumptions C09w_missing_wrapper_panics.
+Print Assumptions C09w_run_firstof_ifequal.
+
+
+(* ==================== part: Execute methods translated from the Go sources (Props/C09x) ==================== *)
+
+(* Property C09 (translated, the tags that keep state) - tagSetNode.Execute and
+   tagAutoescapeNode.Execute ARE the model's executor.
+
+   tools/go2v (tagfuncs.go) translates, statement by statement and on every run,
+       tagSetNode.Execute (tags_set.go), tagAutoescapeNode.Execute (tags_autoescape.go),
+       tagIfchangedNode.state and tagIfchangedNode.Execute (tags_ifchanged.go)
+   into terms of the Go fragment of Lib/GoStmt.v (gen/TagFuncs.v: go_statefuncs).
+   Spec/SpecTagFuncs2.v gives those terms a meaning ([state_tag_execute]: the run of
+   node.Execute(ctx, writer) in a world that holds what the writer was handed so far, the model's
+   execution state, the model's fuel and a heap), in which only what the methods CALL or TOUCH is
+   taken from the model: expression evaluation, NodeWrapper.Execute, the writer, and the data of the
+   context - ctx.Autoescape is f_auto of the top frame, ctx.Private[k] = v is set_priv, ctx.nodeState
+   is ms_nodes.  The order of the statements, the early returns and the error handling are those of
+   the Go text.  [uread_exec site r] reads a run back as an outcome of the model's executor; [after o0 x]
+   is the model's outcome x after the writer already held o0; [d] bounds the call depth (3 is enough).
+
+   What each theorem contributes:
+     C09x_set_is_model         tagSetNode.Execute = exec_node on NSet: every name, expression, state,
+                               fuel, output before (evaluate; on an error return it; otherwise store
+                               the value under the name in ctx.Private of the current context)
+     C09x_autoescape_is_model  tagAutoescapeNode.Execute = exec_node on NAutoescape: every body, flag,
+                               state, fuel: the flag is set, the body runs, the OLD flag is put back
+                               when the body succeeded.  When the body FAILS the Go code returns the
+                               error with ctx.Autoescape still set to the node's flag; the model's
+                               outcome of a failure carries no state, so the tie holds without an
+                               excluding hypothesis (and nothing in pongo2 goes on with a context
+                               after an error: every Execute returns it to the top).
+     C09x_state_tag_execute_is_exec_node   the two in one statement, by [state_tag_value]
+   Examples: set stores and writes nothing; autoescape off/on changes what {{ "<" }} prints and the flag is
+   back afterwards; the translated ifchanged code run on two instances equals the model.
+
+   NOT proved here: the general tie of tagIfchangedNode.Execute (the term is translated without any
+   GSUnknown, its meaning is defined, instances run; see the report for the hypotheses such a tie needs:
+   the Go code reads the node's entry AFTER rendering the body / evaluating the watched expressions, the
+   model BEFORE). *)
+From PV Require Import Model.Exec Model.Api Lib.GoStmt Spec.SpecTagFuncs Spec.SpecTagFuncs2 gen.TagFuncs.
+From PV Require Import Tie.C09s Tie.C09x.
+From Coq Require Import String.
+Open Scope string_scope.
+
+Theorem C09x_set_is_model : forall site d, (3 <= d)%nat -> forall se globals name e o0 st fuel,
+  uread_exec site (state_tag_execute se globals go_statefuncs d (UVSetNode name e) o0 st fuel)
+  = Some (after o0 (exec_node se globals fuel st (NSet name e))).
+Proof. exact tie_tagSetNode_Execute. Qed.
+Print Assumptions C09x_set_is_model.
+
+Theorem C09x_autoescape_is_model : forall site d, (3 <= d)%nat -> forall se globals on body o0 st fuel,
+  uread_exec site (state_tag_execute se globals go_statefuncs d (UVAutoescapeNode body on) o0 st fuel)
+  = Some (after o0 (exec_node se globals fuel st (NAutoescape on body))).
+Proof. exact tie_tagAutoescapeNode_Execute. Qed.
+Print Assumptions C09x_autoescape_is_model.
+
+Theorem C09x_state_tag_execute_is_exec_node : forall site d, (3 <= d)%nat -> forall se globals n v o0 st fuel,
+  match n with NSet _ _ | NAutoescape _ _ => True | _ => False end ->
+  state_tag_value n = Some v ->
+  uread_exec site (state_tag_execute se globals go_statefuncs d v o0 st fuel)
+  = Some (after o0 (exec_node se globals fuel st n)).
+Proof. exact tie_state_tag_Execute_is_exec_node. Qed.
+Print Assumptions C09x_state_tag_execute_is_exec_node.
+
+(* ---------- non-vacuity ---------- *)
+Example C09x_run_set :
+  option_map fst (c09x_run (UVSetNode [122] (EInt 7)) [60] 20) = Some [60] /\
+  c09x_priv (c09x_run (UVSetNode [122] (EInt 7)) [60] 20) [122] = Some (Some (CV (as_value (VInt 7)))) /\
+  option_map snd (c09x_run (UVSetNode [122] (EInt 7)) [60] 1) = Some Fuel.
+Proof. exact tie_c09x_set_witness. Qed.
+
+Example C09x_run_autoescape :
+  option_map fst (c09x_run (UVAutoescapeNode [NVar (EStr [60])] false) [] 20) = Some [60] /\
+  option_map fst (c09x_run (UVAutoescapeNode [NVar (EStr [60])] true) [] 20) = Some [38; 108; 116; 59] /\
+  c09x_auto (c09x_run (UVAutoescapeNode [NVar (EStr [60])] false) [] 20) = c09x_auto (Some ([], Ok c09s_state)).
+Proof. exact tie_c09x_autoescape_witness. Qed.
+
+Example C09x_run_ifchanged_instances :
+  c09x_run (UVIfchangedNode 7 [] [c09x_html [65]] None) [60] 20 =
+    Some (after [60] (exec_node (world_senv c09s_world) [] 20 c09s_state (NIfchanged 7 [] [c09x_html [65]] None))) /\
+  option_map fst (c09x_run (UVIfchangedNode 7 [] [c09x_html [65]] None) [60] 20) = Some [60; 65] /\
+  c09x_run (UVIfchangedNode 7 [EInt 1; EInt 2] [c09x_html [65]] (Some [c09x_html [66]])) [60] 20 =
+    Some (after [60] (exec_node (world_senv c09s_world) [] 20 c09s_state
+                                (NIfchanged 7 [EInt 1; EInt 2] [c09x_html [65]] (Some [c09x_html [66]])))) /\
+  option_map fst (c09x_run (UVIfchangedNode 7 [EInt 1; EInt 2] [c09x_html [65]] (Some [c09x_html [66]])) [60] 20) = Some [60; 65].
+Proof. exact tie_c09x_ifchanged_instances. Qed.
+Print Assumptions C09x_run_set.
+Print Assumptions C09x_run_autoescape.
+Print Assumptions C09x_run_ifchanged_instances.
